@@ -305,7 +305,7 @@ theorem featsOf_eq (t : Table) (k : String) :
   simp only [List.getElem?_eq_getElem hi', Option.bind_some]
   by_cases h : classKey t[i] == k <;> simp [h, Option.guard]
 
-theorem featsOf_specRepair (t : Table) (hns : Table.noStale t = true) (k : String)
+theorem featsOf_specRepair (t : Table) (k : String)
     (hk : k ∈ Table.classKeys t) :
     Table.featsOf (specRepair t) k =
       ((Table.memberIdx t k).take (classN t (Table.memberIdx t k))).filterMap fun j => (specGG t)[j]? := by
@@ -317,7 +317,7 @@ theorem featsOf_specRepair (t : Table) (hns : Table.noStale t = true) (k : Strin
     rw [← List.filterMap_eq_filter, List.filterMap_filterMap, List.filterMap_filter]
     apply filterMap_congr'
     intro j hj
-    obtain ⟨idx', hi', hj'⟩ := (mem_specKeep t hns j).mp hj
+    obtain ⟨idx', hi', hj'⟩ := (mem_specKeep t j).mp hj
     have hjlt : j < t.length := groups_lt t idx' hi' j (List.mem_of_mem_take hj')
     have hkey := specGG_classKey t j
     rw [List.getElem?_eq_getElem hjlt] at hkey
@@ -340,10 +340,10 @@ theorem featsOf_specRepair (t : Table) (hns : Table.noStale t = true) (k : Strin
         simp [hc, this, Option.guard]
   have h2 : ((specKeep t).filter fun j => decide (j ∈ Table.memberIdx t k)) =
       (Table.memberIdx t k).take (classN t (Table.memberIdx t k)) := by
-    apply sorted_ext_nat ((specKeep_sorted t hns).filter _)
+    apply sorted_ext_nat ((specKeep_sorted t).filter _)
       ((Table.memberIdx_sorted t k).sublist (List.take_sublist _ _))
     intro j
-    simp only [List.mem_filter, decide_eq_true_eq, mem_specKeep t hns]
+    simp only [List.mem_filter, decide_eq_true_eq, mem_specKeep t]
     constructor
     · rintro ⟨⟨idx', hi', hj'⟩, hj⟩
       have := group_unique t idx' _ hi' hidx j (List.mem_of_mem_take hj') hj
@@ -369,15 +369,11 @@ theorem classForce_eq (t : Table) (k : String) :
     obtain ⟨f, hf, _⟩ := (Table.mem_memberIdx t k i).mp hi
     simp [classForce, hf]
 
-theorem forceOf_specRepair (t : Table) (hns : Table.noStale t = true) (k : String)
+theorem forceOf_specRepair (t : Table) (k : String)
     (hk : k ∈ Table.classKeys t) : Table.forceOf (specRepair t) k = Table.forceOf t k := by
   have hidx : Table.memberIdx t k ∈ Table.groups t := List.mem_map.mpr ⟨k, hk, rfl⟩
-  have hns' := (noStale_iff t).mp hns
-  have hN : classN t (Table.memberIdx t k) = (classP t (Table.memberIdx t k)).length :=
-    classN_of_ne_nil (hns' _ hidx).1
-  have hpos : 0 < classN t (Table.memberIdx t k) := by
-    rw [hN]; exact List.length_pos_iff.mpr (hns' _ hidx).1
-  simp only [Table.forceOf, featsOf_specRepair t hns k hk, featsOf_eq]
+  have hpos : 0 < classN t (Table.memberIdx t k) := classN_pos t _
+  simp only [Table.forceOf, featsOf_specRepair t k hk, featsOf_eq]
   cases h : Table.memberIdx t k with
   | nil => simp
   | cons i is =>
@@ -395,82 +391,70 @@ theorem forceOf_specRepair (t : Table) (hns : Table.noStale t = true) (k : Strin
       simp only [Option.map_some, Option.some.injEq, Prod.mk.injEq] at hkey
       simp [hkey.1]
 
-theorem mem_classKeys_of_specRepair (t : Table) (hns : Table.noStale t = true) (k : String)
+theorem mem_classKeys_of_specRepair (t : Table) (k : String)
     (hk : k ∈ Table.classKeys (specRepair t)) : k ∈ Table.classKeys t := by
   obtain ⟨f, hf, hfk⟩ := (Table.mem_classKeys _ k).mp hk
   obtain ⟨j, hj, hg⟩ := mem_specRepair t f hf
-  obtain ⟨idx, hi, hj'⟩ := (mem_specKeep t hns j).mp hj
+  obtain ⟨idx, hi, hj'⟩ := (mem_specKeep t j).mp hj
   have hjlt : j < t.length := groups_lt t idx hi j (List.mem_of_mem_take hj')
   have hkey := specGG_classKey t j
   rw [hg, List.getElem?_eq_getElem hjlt] at hkey
   simp only [Option.map_some, Option.some.injEq] at hkey
   exact (Table.mem_classKeys t k).mpr ⟨t[j], List.getElem_mem hjlt, by rw [← hkey, hfk]⟩
 
-theorem noTopJoin_of_plain (t : Table) (hp : Table.plain t = true) : Table.noTopJoin t = true := by
-  simp only [Table.plain, Table.noTopJoin, List.all_eq_true, Bool.or_eq_true, Bool.and_eq_true,
-    Bool.not_eq_true'] at hp ⊢
-  intro f hf
-  rcases hp f hf with h | h
-  · cases hl : f.loc <;> simp [hl, isRanged, isJoined] at h ⊢
-  · exact h.1
+theorem le_sliceLen (p : List Loc) : p.length ≤ sliceLen p := by
+  cases p <;> simp [sliceLen]
 
 /-- **(b)**: on a plain table of well-formed locations a second `Repair` changes nothing -/
 theorem repair_idem (t : Table) (hp : Table.plain t = true) (hw : Table.wfT t = true) :
     repair (specRepair t) = .ok (specRepair t) := by
-  have hns := noStale_of_noTopJoin t (noTopJoin_of_plain t hp)
-  have hns' := (noStale_iff t).mp hns
-  apply repair_unchanged
+  have hnil := noNil_of_plain t hp
+  apply repair_unchanged'
   intro idx' hi'
   obtain ⟨k, hk', rfl⟩ := List.mem_map.mp hi'
-  have hk := mem_classKeys_of_specRepair t hns k hk'
+  have hk := mem_classKeys_of_specRepair t k hk'
   have hidx : Table.memberIdx t k ∈ Table.groups t := List.mem_map.mpr ⟨k, hk, rfl⟩
-  have hN : classN t (Table.memberIdx t k) = (classP t (Table.memberIdx t k)).length :=
-    classN_of_ne_nil (hns' _ hidx).1
-  have hle := (hns' _ hidx).2
   have hlen' := classLocs_length (specRepair t) _ (groups_lt _ _ hi')
   have hlocs : classLocs (specRepair t) (Table.memberIdx (specRepair t) k) =
       classNew t (Table.memberIdx t k) := by
-    rw [classLocs_memberIdx, locsOf_specRepair t hns k hk]
+    rw [classLocs_memberIdx, locsOf_specRepair t hnil k hk]
   have hforce : classForce (specRepair t) (Table.memberIdx (specRepair t) k) =
       classForce t (Table.memberIdx t k) := by
-    rw [classForce_eq, classForce_eq, forceOf_specRepair t hns k hk]
-  rw [← hlen']
-  simp only [classP, hlocs, hforce]
+    rw [classForce_eq, classForce_eq, forceOf_specRepair t k hk]
   have hlt := groups_lt t _ hidx
   have hlen := classLocs_length t _ hlt
-  rcases plain_class t hp _ hidx with ⟨h1, hj⟩ | hr
-  · have hnlt : ¬ classN t (Table.memberIdx t k) < (Table.memberIdx t k).length := by
-      have : 0 < (classP t (Table.memberIdx t k)).length := List.length_pos_iff.mpr (hns' _ hidx).1
-      omega
-    simp only [classNew, hnlt, if_false]
-    have : ∃ l, classLocs t (Table.memberIdx t k) = [l] := by
-      cases hc : classLocs t (Table.memberIdx t k) with
-      | nil => rw [hc] at hlen; simp at hlen; omega
-      | cons a as =>
-        cases as with
-        | nil => exact ⟨a, rfl⟩
-        | cons b bs => rw [hc] at hlen; simp at hlen; omega
-    obtain ⟨l, hl⟩ := this
-    simp only [pushedOf, hl, sortLocs_single, pushAll, List.length_reverse]
-    rw [pushAllD_single _ _ _ (hj l (by simp [hl]))]
-    rfl
-  · have hrwf : ∀ l ∈ classLocs t (Table.memberIdx t k), l.rwf = true := by
-      intro l hl
-      have h1 := hr l hl
-      obtain ⟨i, _, f, hf, rfl⟩ := mem_classLocs t _ l hl
-      simp only [Table.wfT, List.all_eq_true] at hw
-      have h2 := hw f (List.mem_of_getElem? hf)
-      cases hfl : f.loc <;> simp [hfl, isRanged] at h1
-      simpa [hfl, wf, rwf] using h2
-    simp only [classNew]
-    split
-    · have := pushedOf_idem (classForce t (Table.memberIdx t k)) _ hrwf
-      simp only [classP]
-      rw [this]
-    · rename_i hnlt
-      have e : (pushedOf (classForce t (Table.memberIdx t k)) (classLocs t (Table.memberIdx t k))).length =
-          (classP t (Table.memberIdx t k)).length := rfl
-      rw [e, hlen]
-      omega
+  have hgoal : (classNew t (Table.memberIdx t k)).length ≤
+      sliceLen (pushedOf (classForce t (Table.memberIdx t k)) (classNew t (Table.memberIdx t k))) := by
+    rcases plain_class t hp _ hidx with h1 | hr
+    · have hnlt : ¬ classN t (Table.memberIdx t k) < (Table.memberIdx t k).length := by
+        have := classN_pos t (Table.memberIdx t k); omega
+      simp only [classNew, hnlt, if_false]
+      rw [hlen, h1]
+      generalize pushedOf _ _ = q
+      cases q <;> simp [sliceLen]
+    · have hrwf : ∀ l ∈ classLocs t (Table.memberIdx t k), l.rwf = true := by
+        intro l hl
+        have h1 := hr l hl
+        obtain ⟨i, _, f, hf, rfl⟩ := mem_classLocs t _ l hl
+        simp only [Table.wfT, List.all_eq_true] at hw
+        have h2 := hw f (List.mem_of_getElem? hf)
+        cases hfl : f.loc <;> simp [hfl, isRanged] at h1
+        simpa [hfl, wf, rwf] using h2
+      simp only [classNew]
+      split
+      · have := pushedOf_idem (classForce t (Table.memberIdx t k)) _ hrwf
+        simp only [classP]
+        rw [this]
+        exact le_sliceLen _
+      · rename_i hnlt
+        have e : sliceLen (pushedOf (classForce t (Table.memberIdx t k)) (classLocs t (Table.memberIdx t k))) =
+            classN t (Table.memberIdx t k) := rfl
+        rw [e, hlen]
+        omega
+  have e2 : classN (specRepair t) (Table.memberIdx (specRepair t) k) =
+      sliceLen (pushedOf (classForce t (Table.memberIdx t k)) (classNew t (Table.memberIdx t k))) := by
+    simp only [classN, classP, hlocs, hforce]
+  rw [e2, ← hlen', hlocs]
+  exact hgoal
 
 end Gts
